@@ -445,9 +445,18 @@ impl<'a> Model<'a> {
             | Cell::BooleanCell { .. }
             | Cell::NumberCell { .. }
             | Cell::ErrorCell { .. }
-            | Cell::SharedString { .. }
-            | Cell::CellFormula { .. } => {
-                // This is a regular cell, we can just move it.
+            | Cell::SharedString { .. } => {
+                // This is a plain value, we move the cell as it is. Going through the
+                // text of the cell would interpret it again (the text "123" of a
+                // quote-prefixed string would become a number)
+                let cell = source_cell.clone();
+                let worksheet = self.workbook.worksheet_mut(sheet)?;
+                worksheet.update_cell(target_row, target_column, cell)?;
+                worksheet.remove_cell(source_row, source_column)?;
+                return Ok(());
+            }
+            Cell::CellFormula { .. } => {
+                // This is a regular formula, we can just move it.
             }
             Cell::SpillCell { .. } => {
                 // This the spill of an array formula. Because dynamic arrays spills have been deleted
@@ -1061,15 +1070,19 @@ impl<'a> Model<'a> {
                     });
 
             let mut array = None;
+            // plain values are moved as they are (see `move_cell`)
+            let mut plain = None;
 
             match cell {
                 Cell::EmptyCell { .. }
                 | Cell::BooleanCell { .. }
                 | Cell::NumberCell { .. }
                 | Cell::ErrorCell { .. }
-                | Cell::SharedString { .. }
-                | Cell::CellFormula { .. } => {
-                    // This is a regular cell, we can just move it.
+                | Cell::SharedString { .. } => {
+                    plain = Some(cell.clone());
+                }
+                Cell::CellFormula { .. } => {
+                    // This is a regular formula, we can just move it.
                 }
                 Cell::SpillCell { .. } => {
                     // This the spill of an array formula. Because dynamic arrays spills have been deleted
@@ -1098,7 +1111,7 @@ impl<'a> Model<'a> {
                 }
             }
 
-            original_cells.push((r.row, formula_or_value, style_idx, array));
+            original_cells.push((r.row, formula_or_value, style_idx, array, plain));
             let ws = self.workbook.worksheet_mut(sheet)?;
             ws.remove_cell(r.row, column)?;
         }
@@ -1135,8 +1148,12 @@ impl<'a> Model<'a> {
                     .set_column_width_and_style(c + 1, w, h, s)?;
             }
         }
-        for (r, value, style_idx, array) in original_cells {
-            if let Some(a) = array {
+        for (r, value, style_idx, array, plain) in original_cells {
+            if let Some(cell) = plain {
+                self.workbook
+                    .worksheet_mut(sheet)?
+                    .update_cell(r, target_column, cell)?;
+            } else if let Some(a) = array {
                 self.set_user_array_formula(sheet, r, target_column, a.0, a.1, &value)?;
             } else {
                 self.set_user_input(sheet, r, target_column, value)?;
@@ -1206,15 +1223,19 @@ impl<'a> Model<'a> {
                 cell.get_localized_text(&self.workbook.shared_strings, self.locale, self.language)
             });
             let mut array = None;
+            // plain values are moved as they are (see `move_cell`)
+            let mut plain = None;
 
             match cell {
                 Cell::EmptyCell { .. }
                 | Cell::BooleanCell { .. }
                 | Cell::NumberCell { .. }
                 | Cell::ErrorCell { .. }
-                | Cell::SharedString { .. }
-                | Cell::CellFormula { .. } => {
-                    // This is a regular cell, we can just move it.
+                | Cell::SharedString { .. } => {
+                    plain = Some(cell.clone());
+                }
+                Cell::CellFormula { .. } => {
+                    // This is a regular formula, we can just move it.
                 }
                 Cell::SpillCell { .. } => {
                     // This the spill of an array formula. Because dynamic arrays spills have been deleted
@@ -1242,7 +1263,7 @@ impl<'a> Model<'a> {
                     array = Some(*r);
                 }
             }
-            original_cells.push((*c, formula_or_value, style_idx, array));
+            original_cells.push((*c, formula_or_value, style_idx, array, plain));
             let ws = self.workbook.worksheet_mut(sheet)?;
             ws.remove_cell(row, *c)?;
         }
@@ -1261,8 +1282,12 @@ impl<'a> Model<'a> {
                 }
             }
         }
-        for (c, value, style_idx, array) in original_cells {
-            if let Some(array_range) = array {
+        for (c, value, style_idx, array, plain) in original_cells {
+            if let Some(cell) = plain {
+                self.workbook
+                    .worksheet_mut(sheet)?
+                    .update_cell(target_row, c, cell)?;
+            } else if let Some(array_range) = array {
                 self.set_user_array_formula(
                     sheet,
                     target_row,
